@@ -56,7 +56,11 @@ def run_plen(case):
                 rec["result"] = bits(normalize_piece_length(arg(x)))
             else:
                 tree = {"name": "pl.bin", "single": True, "files": [{"path": [], "size": 20000}]}
-                root = alpha.materialize(tree, os.path.join(sbx, "p"))
+                if case.get("payload_size"):      # a (sparse) payload of many thousand pieces: the length given is the length used
+                    root = os.path.join(sbx, "p", "pl.bin")
+                    _sparse(root, case["payload_size"])
+                else:
+                    root = alpha.materialize(tree, os.path.join(sbx, "p"))
                 if via == "lib":
                     from torrentfile.torrent import TorrentFile, TorrentAssembler
                     cls = TorrentFile if case.get("version", 1) == 1 else TorrentAssembler
